@@ -65,6 +65,13 @@ class H(W.Hooks):
         from job_shop_lib.dispatching import HistoryObserver
         self.hist_obs = HistoryObserver(run.d)
 
+    def refused_add_changed_schedule(self, run, accepted, n_before):
+        self.ctx.violation("c02_refused_schedule_add_changed_the_bookkeeping",
+                           {"accepted": accepted, "count_before": n_before,
+                            "count_after": run.d.schedule.num_scheduled_operations,
+                            "is_complete": run.d.schedule.is_complete(),
+                            "history": list(run.r.history)})
+
     def after(self, run, o, m):
         ctx, d, r = self.ctx, run.d, run.r
         ctx.count("lockstep_start_checks")
